@@ -367,7 +367,7 @@ ASSUMPTIONS = [
 ]
 PROBES = ["wrap_crossed_proto", "wrap_crossed_cmd", "preempted_inside_udp_socket", "lock_contended", "full_protocol_cycle", "full_command_cycle",
           "wrap_on_wire_proto", "wrap_on_wire_cmd", "sync_set_value", "sync_key_press", "new_connection"]
-N_QUICK = 1200
+N_QUICK = 3000
 
 
 def jobs(tier: str, base_seed: int):
